@@ -242,7 +242,13 @@ func driver(id, tier string) int {
 	}
 
 	wall := time.Since(t0).Seconds()
-	ev := Evidence{PropertyID: id, Tier: tier, Seed: int64(seed), Level: "exploration", WallS: wall, Violations: len(confirmed), Assumptions: commonAssumptions}
+	assume := append([]string(nil), commonAssumptions...)
+	if nv := newPackageVars("/repo"); len(nv) > 0 {
+		note := "package-level variables not in the baseline list (instance dumps do not cover them; a query writing one would go unnoticed): " + strings.Join(nv, ", ")
+		assume = append(assume, note)
+		fmt.Println("NOTE: " + note)
+	}
+	ev := Evidence{PropertyID: id, Tier: tier, Seed: int64(seed), Level: "exploration", WallS: wall, Violations: len(confirmed), Assumptions: assume}
 	var samples []any
 	for _, s := range merged.Samples {
 		var v any
